@@ -137,6 +137,12 @@ def stepLine (d : DS) (line : String) : DS × String :=
   | ["ctrans", dst, a] => match d.get a with
     | some p => let A := ctrans p.2; (d.bindNew dst A, showMat A)
     | none => (d, "bad-op")
+  | ["real", dst, a] => match d.get a with
+    | some p => let A := real p.2; (d.bindNew dst A, showMat A)
+    | none => (d, "bad-op")
+  | ["imag", dst, a] => match d.get a with
+    | some p => let A := imag p.2; (d.bindNew dst A, showMat A)
+    | none => (d, "bad-op")
   | ["reshape", name, m, n] => match d.get name, m.toInt?, n.toInt? with
     | some p, some m, some n =>
       match reshape p.2 m n with
